@@ -91,7 +91,9 @@ def run(ck):
         return 0 if h else 2
     r1, nm = syntax_part(ck, "tla/gen_specs.ndjson")
     ck.log("syntax: %d base specifications, %d single-token mutants" % (len(base), nm))
-    r2, ns = lexical_part(ck, "tla/gen_specs.ndjson")
+    if quick:        # four gluing variants of 28 stray texts at every position: every other base specification is enough
+        vp.write_ndjson(os.path.join(ck.work, "tla", "gen_specs_lex.ndjson"), base[::2])
+    r2, ns = lexical_part(ck, "tla/gen_specs_lex.ndjson" if quick else "tla/gen_specs.ndjson")
     ck.log("lexical: %d texts with a stray/unterminated element" % ns)
     muts = vp.read_ndjson(os.path.join(ck.work, "tla", "mutants.ndjson"))
     for m in muts[:: max(1, len(muts) // 6)]:
